@@ -643,6 +643,12 @@ def check_C02(tier, seed):
     # random shaders: sparse indices, several groups, stage subsets, helper chains
     rc = sparse_group_cases(rng, 120 if quick else 2500)
     compiled_and_judge(rep, "C02", rc, "random", "realrun", want, keep=["groups"])
+    # declaration sequences with repeated / gapped slots: the generator must refuse them (C11); should it ever accept one, wgpu sees the layout
+    rb = run_mc("MC_BindGroupData.tla", "MC_BindGroupData.cfg", workers=8, consts={"MaxLen": "3" if quick else "4", "MaxGroup": "1", "MaxBinding": "2"})
+    bad = [e for e in rb.cases if e["expect"] != "ok"]
+    rng.shuffle(bad)
+    bcases = [{"id": "bad-%04d" % i, "family": "refused-sequences", "S": F.bgd_shader(e["decls"]), "opts": F.opts()} for i, e in enumerate(bad[:(150 if quick else 2000)])]
+    compiled_and_judge(rep, "C02", bcases, "refused", "realrun", want, keep=["groups"])
     # visibility as wgpu sees it: the context slice of the stage analysis (access / call at every nesting) through real pipeline creation
     r2 = run_mc("MC_StagesCtx.tla", "MC_StagesCtx.cfg", workers=8, consts={"DA": "1", "DC": "1" if quick else "2", "Memo": "TRUE" if MEMO else "FALSE"})
     rep.add_mc("MC_StagesCtx", r2, "exported shaders validated by real pipeline creation")
